@@ -161,7 +161,7 @@ CLAIMED = {
     },
     "C37": {
         "technique": "error-path analysis (R-LOSSY / R-ORDER) of the replication result in the API handlers on MIR (cfg raft)",
-        "level": "One clause only: a failed raft_replicate never falls through to the success reply of the handler that issued it. Consensus safety is openraft's and is not decided.",
+        "level": "Two clauses only: a failed raft_replicate never falls through to the success reply of the handler that issued it; both log stores truncate conflicting entries inclusively and overwrite on append (the RaftStorage contract the consensus library relies on). Consensus safety is openraft's and is not decided.",
     },
     "C38": {
         "technique": "replication coverage (R-REPL): locally written coordinator components vs ClusterCommand variants issued per entry point, over call graph and field index (cfg raft)",
